@@ -836,14 +836,24 @@ func deriveConflicts(wl *wlMerge, order []int) []Conflict {
 		sort.Strings(ks)
 		return ks
 	}
+	// any of the files involved in a conflict may be named for it: the
+	// statement says "the offending file" without choosing between the two
+	// sides of a duplicate
+	filesOf := func(d []decl) []string {
+		var fs []string
+		for _, x := range d {
+			fs = append(fs, x.file)
+		}
+		return fs
+	}
 	for _, n := range names(typeDecl) {
 		if d := typeDecl[n]; len(d) >= 2 {
-			out = append(out, Conflict{Kind: "dup-type", Name: n, Files: []string{d[len(d)-1].file}})
+			out = append(out, Conflict{Kind: "dup-type", Name: n, Files: filesOf(d)})
 		}
 	}
 	for _, n := range names(condDecl) {
 		if d := condDecl[n]; len(d) >= 2 {
-			out = append(out, Conflict{Kind: "dup-cond", Name: n, Files: []string{d[len(d)-1].file}})
+			out = append(out, Conflict{Kind: "dup-cond", Name: n, Files: filesOf(d)})
 		}
 	}
 	contrib := map[string]map[string][]string{} // type -> relation -> extension files
@@ -873,7 +883,7 @@ func deriveConflicts(wl *wlMerge, order []int) []Conflict {
 		for _, rn := range rns {
 			files := contrib[tn][rn]
 			if baseRels[tn][rn] {
-				out = append(out, Conflict{Kind: "rel-base-ext", Name: tn, Rel: rn, Files: files})
+				out = append(out, Conflict{Kind: "rel-base-ext", Name: tn, Rel: rn, Files: append(append([]string(nil), files...), typeDecl[tn][0].file)})
 			} else if len(files) >= 2 {
 				out = append(out, Conflict{Kind: "rel-ext-ext", Name: tn, Rel: rn, Files: files})
 			}
